@@ -24,6 +24,8 @@ MANIFEST = {
                  "+ differential run against the real queue methods + comment-insertion search on the real formatter",
 }
 
+MAX_KEYS = 6
+
 RULE = ("queue differential: all op lists up to length 2 (thorough 3) over 6 positions x impliedSemi for 7 queue shapes + random queues (0-6 groups, "
         "0-3 comments each, four comment styles, sorted and unsorted offsets, empty groups, positions incl. infinity, print/sizeBefore/before ops); "
         "search: every parsing file of the tree (.xgo .gox .go .spx .gmx .gsh ...), every raw-string test program embedded in *_test.go, generated XGo programs; "
@@ -32,14 +34,25 @@ RULE = ("queue differential: all op lists up to length 2 (thorough 3) over 6 pos
 
 
 def _search(ctx, outdir, dis):
-    n = 600000 if ctx.tier == "thorough" else 70000
+    n = 600000 if ctx.tier == "thorough" else 50000
     sd = ctx.run_harness("c21", n, extra=["-mode", "search"], sub="search", timeout=3000)
     if not sd:
         return
     ctx.load_stats(sd)
-    for key, case, detail in ctx.oracle_failures(sd):
+    fails = ctx.oracle_failures(sd)
+    seen, extra = set(), {}
+    for key, case, detail in fails:
+        # one broken piece of the printer shows up under many (node kind, position) keys:
+        # report the first MAX_KEYS distinct unknown keys as violations, count the rest
+        if key not in ctx.known and key not in seen and len(seen) >= MAX_KEYS:
+            extra[key] = extra.get(key, 0) + 1
+            continue
+        seen.add(key)
         ctx.report_concrete(key, {"case": case, "detail": detail, "harness": "c21",
                                   "how": "C21 predicate (scanner-level comment sequence of input == of output, normalised) on the real format.Source"})
+    if extra:
+        ctx.notes.append("further failing keys not written as replays (%d keys, %d cases): %s" % (
+            len(extra), sum(extra.values()), ", ".join(sorted(extra)[:40])))
 
 
 def run(ctx):
